@@ -467,6 +467,35 @@ def no_realloc(ctx, taint, wiping_adts):
                     slack = ilen.padd(capp, total, -1)
                     verdict = ilen.ge0(slack)
                     vdet = 'capacity %s, filled with %s' % (capp, total)
+                    if not verdict and ilen.is_const(capp) and ilen.is_const(total) and not any(per_push) and all(e_['kind'] != 'closure' for e_ in pushes):
+                        # straight-line fills on *alternative* paths (`match (j, k) { (Some, Some) => .., (Some, None) => .., .. }`) do not
+                        # add up: the most that one path through the function puts in
+                        from bpsa import paths as _paths
+                        cfg_ = ctx.cfgof(b)
+                        per_block = {}
+                        for e_ in pushes:
+                            if e_['decl'].endswith('::push'):
+                                it_n = 1
+                            else:
+                                c_ = ilen.icount(ctx.eng.event_term(b, e_)[3][0])
+                                it_n = c_.get((), 0) if ilen.is_const(c_) else None
+                            if it_n is None:
+                                per_block = None
+                                break
+                            per_block[e_['bb']] = per_block.get(e_['bb'], 0) + it_n
+                        worst = None
+                        if per_block is not None:
+                            for ret_ in cfg_.returns:
+                                ps_ = _paths.paths_to(cfg_, ret_)
+                                if ps_ is None:
+                                    worst = None
+                                    break
+                                for path_ in ps_:
+                                    n_ = sum(per_block.get(x, 0) for x in path_)
+                                    worst = n_ if worst is None else max(worst, n_)
+                        if worst is not None:
+                            verdict = capp.get((), 0) >= worst
+                            vdet = 'capacity %d, at most %d on any one path (the %d fill sites lie on alternative paths)' % (capp.get((), 0), worst, len(pushes))
                     if not verdict:
                         # symbolic fill counts against a smaller / constant capacity: bound each length by what the dominating guards and
                         # the enum's largest discriminant allow
